@@ -7,8 +7,8 @@ from common import case_rng
 from framework import Finding
 
 MON = {"C01": solvermon.mon_c01, "C02": solvermon.mon_c02, "C03": solvermon.mon_c03, "C05": solvermon.mon_c05}
-CORR = {"C01": ("de", "nm", "pw", "pwb", "solve"), "C02": ("de", "nm", "pw", "pwb"), "C03": ("de", "nm", "pw", "pwb"), "C04": ("ctl", "de", "nm", "pw", "pwb", "solve"), "C05": ("ctl", "solve")}
-REQ = {"de": solvermodel.de_request, "nm": solvermodel.nm_request, "ctl": solvermodel.ctl_request, "pw": solvermodel.pw_request, "solve": solvermodel.solve_request, "pwb": solvermodel.pwb_request}
+CORR = {"C01": ("de", "dec", "nm", "pw", "pwb", "solve"), "C02": ("de", "dec", "nm", "pw", "pwb"), "C03": ("de", "dec", "nm", "pw", "pwb"), "C04": ("ctl", "de", "dec", "nm", "pw", "pwb", "solve"), "C05": ("ctl", "solve")}
+REQ = {"de": solvermodel.de_request, "nm": solvermodel.nm_request, "ctl": solvermodel.ctl_request, "pw": solvermodel.pw_request, "solve": solvermodel.solve_request, "pwb": solvermodel.pwb_request, "dec": solvermodel.dec_request}
 
 
 def spec_view(spec):
@@ -561,6 +561,13 @@ def run_shard(pid, seed, shard, ncases, tier, extra):
             line, cmp = REQ[which](spec, rec)
             if line is not None:
                 lines.append(line); cmps.append(cmp); metas.append((which, case))
+                if which == "dec":
+                    n, why, nredec, ncfg = cmp.dec_info
+                    hist["dec-iterations"] = hist.get("dec-iterations", 0) + n
+                    hist["dec-redecorations-after-generation-0"] = hist.get("dec-redecorations-after-generation-0", 0) + nredec
+                    if ncfg > 1:
+                        hist["dec-runs-with-changed-settings"] = hist.get("dec-runs-with-changed-settings", 0) + 1
+                    hist["dec-stops-at:" + why] = hist.get("dec-stops-at:" + why, 0) + 1
             elif cmp is not None:
                 # the recorded run does not meet the model's oracle contract: nothing to replay, report directly
                 for key, what in cmp(None):
@@ -617,7 +624,8 @@ def main(pid, module, theorems, tier, seed, rule_extra, trusted_extra):
             "driven through op sequences (Step/Solve/Set*/Finalize/exit requests); every cost call, monitor, counter and return value "
             "recorded. non-trivial = at least 3 iterations really ran (or a Solve with > 3 cost calls). " % (4 if tier == "quick" else 8)) + rule_extra
     tb = ["Lean 4.33 kernel; axioms per theorem under coverage.theorems (subset of propext, Classical.choice, Quot.sound)",
-          "hand-written model S (Model/Solver.lean, Model/NelderMead.lean, Model/PowellS.lean) tied to /repo by the bit-exact replays counted under histogram model:de / model:nm / model:pw / model:ctl",
+          "hand-written model S (Model/Solver.lean, Model/NelderMead.lean, Model/PowellS.lean) tied to /repo by the bit-exact replays counted under histogram model:de / model:dec / model:nm / model:pw / model:ctl",
+          "reconfigured differential-evolution runs (Set* between Steps, settings handed to Step, Steps after a stop) are replayed through Model/Reconfig.lean with the settings in force at every performed iteration (model:dec; histogram dec-runs-with-changed-settings, dec-redecorations-after-generation-0); the replay stops before the first event the model does not cover (histogram dec-stops-at:*: a replaced monitor, a Solve op, a re-decoration that re-draws an out-of-box member at random)",
           "user functions are DSL terms evaluated identically by harness/dsl.py and Model/Dsl.lean; DE trial vectors are taken from the real strategy (recorded); Powell is replayed twice: with the line searches of the real Brent as recorded oracle (model:pw) and from the initial guess alone with the Lean model of bracket/brent (Model/Brent.lean, model:pwb)",
           ] + trusted_extra
     assumptions = ["cost/penalty never return NaN (NaN traces are skipped and counted)", "constraints deterministic, idempotent and compatible with the box (generated so)",
